@@ -68,11 +68,13 @@ def specSelectH (abs : List Nat) (c k : Nat) : String :=
 def specGet (abs : List Nat) (i : Nat) : String := optS abs[i]?
 
 /-- history letters: `n` next, `b` next_back, `l` len, `c` by_ref().count(), `a` by_ref().last(),
-    `t u v w x y z` = nth(1 2 5 64 255 256 1000), the same capitals = nth_back -/
+    `t u v w x y z` = nth(1 2 5 64 255 256 1000), `o p q` = nth(2^64-2, 2^63, 2^64-1), the same capitals = nth_back -/
 def nthAmount (c : Char) : Option Nat :=
   match c.toLower with
   | 't' => some 1 | 'u' => some 2 | 'v' => some 5 | 'w' => some 64
-  | 'x' => some 255 | 'y' => some 256 | 'z' => some 1000 | _ => none
+  | 'x' => some 255 | 'y' => some 256 | 'z' => some 1000
+  | 'o' => some 18446744073709551614 | 'p' => some 9223372036854775808 | 'q' => some 18446744073709551615
+  | _ => none
 
 def opsOf (cs : List Char) : List Iter.IterOp :=
   cs.map (fun c =>
